@@ -567,9 +567,20 @@ func genFiles(t *tape.Tape) *c13Case {
 			c.Files = append(c.Files, fileSpec{Path: "other.yang", Module: "other"})
 		}
 	}
-	if t.Chance(1, 4) && len(c.Files) > 0 {
+	if t.Chance(1, 3) && len(c.Files) > 0 {
+		// faults on files nobody opens test nothing: two thirds of them go to
+		// candidates for the wanted module (and their directories)
+		var cands []fileSpec
+		for _, f := range c.Files {
+			if b := path.Base(f.Path); b == c.Want+".yang" || strings.HasPrefix(b, c.Want+"@") {
+				cands = append(cands, f)
+			}
+		}
 		for k := t.Range(1, 2); k > 0; k-- {
 			f := c.Files[t.Intn(len(c.Files))]
+			if len(cands) > 0 && t.Chance(2, 3) {
+				f = cands[t.Intn(len(cands))]
+			}
 			switch t.Intn(3) {
 			case 0:
 				c.Faults = append(c.Faults, fsim.Fault{Kind: fsim.DIRERR, Path: path.Dir(f.Path), Nth: 0})
